@@ -55,27 +55,60 @@ ASSUMPTIONS = [
     "(rigid: monoidal's names overridden by rigid's)"]
 
 _ENV = {}
-_NUMBER = re.compile(r"(?<![\w.'\"])-?\d+(?:\.\d*)?(?:e[+-]?\d+)?(?![\w.'\"])")
+def atoms(v, out=None):
+    """ Names and payloads of a value, in a fixed traversal order. """
+    out = [] if out is None else out
+    if hasattr(v, "terms") and type(v).__name__ == "Sum":
+        for term in v.terms:
+            atoms(term, out)
+        atoms(v.dom, out)
+        atoms(v.cod, out)
+    elif hasattr(v, "boxes"):
+        atoms(v.dom, out)          # a bare box is read as its one-box diagram
+        atoms(v.cod, out)
+        for box in v.boxes:
+            if len(box.boxes) == 1 and box.boxes[0] is box:
+                atoms(box.dom, out)
+                atoms(box.cod, out)
+                out.append(box.name)
+                out.append(getattr(box, "data", None))
+                inside = getattr(box, "inside", None)
+                if inside is not None:
+                    atoms(inside, out)
+            else:
+                atoms(box, out)
+    elif hasattr(v, "objects"):
+        for ob in v.objects:
+            out.append(ob.name)
+    elif hasattr(v, "name"):
+        out.append(v.name)
+    return out
 
 
-def _normalise_numbers(text):
-    return _NUMBER.sub(lambda m: "%g" % float(m.group(0)), text)
-
-
-def numeric_literal_hash(monitor, witness):
+def equal_atoms_printed_differently(a, b):
     """
-    a == b because Python says 1 == 1.0 for a name or payload, while hashes are
-    hashes of repr strings, which print "1" and "1.0".
+    a and b are built from pairwise Python-equal names/payloads, at least one of
+    which prints differently (1 vs 1.0, {'a': 1, 'b': 2} vs {'b': 2, 'a': 1}).
     """
-    if monitor not in ("hash-consistent", "dict-lookup"):
+    xs, ys = atoms(a), atoms(b)
+    try:
+        same = len(xs) == len(ys) and all(x == y for x, y in zip(xs, ys))
+    except Exception:
         return False
-    a, b = witness.get("a"), witness.get("b")
-    if not isinstance(a, str) or not isinstance(b, str) or a == b:
-        return False
-    return _normalise_numbers(a) == _normalise_numbers(b)
+    return bool(same) and [repr(x) for x in xs] != [repr(y) for y in ys]
 
 
-PREDICATES = {"numeric_literal_hash": numeric_literal_hash}
+def hash_of_repr(monitor, witness):
+    """
+    a == b because Python says their names/payloads are equal (1 == 1.0, dicts
+    equal whatever the insertion order) while hashes are hashes of repr strings,
+    which print those equal payloads differently.
+    """
+    return monitor in ("hash-consistent", "dict-lookup")\
+        and witness.get("equal_atoms_printed_differently") is True
+
+
+PREDICATES = {"hash_of_repr": hash_of_repr}
 
 
 def setup(ctx):
@@ -270,6 +303,8 @@ def run_case(rng, ctx):
             ctx.expect("hash-consistent", hashes[i] == hashes[j], cls=name,
                        a=lambda: safe_repr(a), b=lambda: safe_repr(b),
                        type_a=type(a).__name__, type_b=type(b).__name__,
+                       equal_atoms_printed_differently=lambda:
+                       equal_atoms_printed_differently(a, b),
                        bubble_involved=lambda: "Bubble" in repr(keys[i]) + repr(keys[j]))
             try:
                 found = {a: 1}[b] == 1
@@ -277,6 +312,8 @@ def run_case(rng, ctx):
                 found = False
             ctx.expect("dict-lookup", found, cls=name, a=lambda: safe_repr(a),
                        b=lambda: safe_repr(b),
+                       equal_atoms_printed_differently=lambda:
+                       equal_atoms_printed_differently(a, b),
                        bubble_involved=lambda: "Bubble" in repr(keys[i]) + repr(keys[j]))
     for v in pool:
         for foreign in ("x", None, 1, ("x",)):
